@@ -423,6 +423,13 @@ func (r *Reconciler) reconcileAbort(ctx context.Context, proposal *configapi.Pro
 			}
 			return controller.Result{}, nil
 		}
+		// An abort that waits for the cursors to reach its predecessor pokes the predecessor, as a commit
+		// and an apply that wait do: nothing else may be looking at it
+		if proposal.Status.PrevIndex != 0 {
+			return controller.Result{
+				Requeue: controller.NewID(proposalstore.NewID(proposal.TargetID, proposal.Status.PrevIndex)),
+			}, nil
+		}
 	case configapi.ProposalAbortPhase_ABORTED:
 		if proposal.Status.NextIndex != 0 {
 			return controller.Result{
